@@ -15,7 +15,7 @@ PY = "/venv/bin/python"
 # property -> (technique, decided clauses, undecided clauses)
 CLAIMS = {
     "C01": (
-        "kind-lattice abstract interpretation at match-construction sites; loop-nesting, pre-order and guard-dominance rules; regex-AST rule on string tokens",
+        "kind-lattice abstract interpretation at match-construction sites; loop-nesting, pre-order and guard-dominance rules; regex-AST rule on string tokens; abstract execution (partial evaluator + model objects) of the six selector classes on covering small documents; lexer decisions on the reconstructed master pattern",
         "wrong-kind values select nothing; list concatenation per input node; descendant pre-order; document member order; zero step; quoted-string token shape",
         "index/slice arithmetic, full nodelist equality, blank-space tolerance",
     ),
@@ -25,7 +25,7 @@ CLAIMS = {
         "truth of arbitrary expressions on arbitrary documents, regex dialect",
     ),
     "C03": (
-        "def-use rule on location steps at match-construction sites; inverse-table check of escape/unescape chains; regex-AST token shape; default-parameter rule on the pointer parser",
+        "def-use rule on location steps at match-construction sites; inverse-table check of escape/unescape chains; regex-AST token shape; default-parameter rule on the pointer parser; abstract execution of the selectors on covering small documents (values and location parts); folded character tables",
         "location-step agreement, canonical escape, inverse escape tables, token shape, pointer built from parts, pointer text parses back under the parser's defaults (2 known findings)",
         "normalised index arithmetic, object identity of re-evaluated nodes",
     ),
@@ -50,7 +50,7 @@ CLAIMS = {
         "acceptance of every valid RFC query, trailing comma",
     ),
     "C08": (
-        "AST normal-form equivalence of sync/async method twins (await-erasure + enumerated idioms), cross-checked by kind sets of twin sites",
+        "AST normal-form equivalence of sync/async method twins (await-erasure + enumerated idioms), cross-checked by kind sets of twin sites; abstract execution of sync and async resolvers on covering small documents",
         "every m/m_async pair is the same algorithm up to awaiting; no half-overridden twin",
         "scheduling effects of third-party awaitables",
     ),
@@ -60,7 +60,7 @@ CLAIMS = {
         "(result equality under interleavings follows from the absence of shared writes)",
     ),
     "C10": (
-        "def-use field-coverage rule (evaluation reads subset of __str__ reads), constant-folded precedence and flag tables, keyword round trip through the reconstructed lexer grammar",
+        "def-use field-coverage rule (evaluation reads subset of __str__ reads), constant-folded precedence and flag tables, keyword round trip through the reconstructed lexer grammar; grouping round trip: abstract execution of the printers on all expression trees of depth 3 read back by a reference Pratt parser with the folded precedence table",
         "field coverage of string forms, precedence agreement parser/printer, regex flag tables inverse, keyword round trip, escape tables",
         "float/huge-number literal text, whole-query equivalence on all documents",
     ),
@@ -75,7 +75,7 @@ CLAIMS = {
         "the list-slicing law over operation histories (itertools/deque semantics)",
     ),
     "C13": (
-        "operator-table exhaustiveness against compare's dispatch, reconstructed-lexer alias tables against parser dispatch maps, AST normal forms of mirror operators, forwarding rule for the filter context",
+        "operator-table exhaustiveness against compare's dispatch, reconstructed-lexer alias tables against parser dispatch maps, AST normal forms of mirror operators, forwarding rule for the filter context; abstract execution of CurrentKey and of the lexer's master pattern on alias spellings",
         "operator exhaustiveness, alias tables, contains mirrors in, =~ full match with flags, keys selector, fake root, filter-context propagation, root-less/bare names",
         "evaluation results of extension queries on arbitrary documents",
     ),
@@ -85,17 +85,17 @@ CLAIMS = {
         "the resolution law of joins",
     ),
     "C15": (
-        "dispatch-table agreement (loader branch / builder / Op.name / labels), writer-reader key sets, taint rule (stored value never aliased into the document), sibling diff of add variants",
+        "dispatch-table agreement (loader branch / builder / Op.name / labels), writer-reader key sets, taint rule (stored value never aliased into the document), sibling diff of add variants; abstract execution of the patch loader per operation name and of its member lookup",
         "dispatch agreement, builder-class-name agreement, asdict keys = loader keys, no aliasing of stored values, variant deltas",
         "equality of effects of the three constructions on all documents",
     ),
     "C16": (
-        "regex-AST rule on the relative-pointer grammar, guard-dominance for parts[-1], taint rule decode-once, print coverage",
+        "regex-AST rule on the relative-pointer grammar, guard-dominance for parts[-1], taint rule decode-once, print coverage; abstract execution of the index recogniser on a covering token set; who-may-call rule for the second entry point",
         "grammar admits multi-digit offset, empty-parts guard, decode once, every parsed part printed",
         "arithmetic of steps and offsets",
     ),
     "C17": (
-        "constant-literal rule on printers vs folded token defaults, lexer rule-table rule (all eight tokens, escaped, longest first, before the generic name rule), no-default-spelling rule",
+        "constant-literal rule on printers vs folded token defaults, lexer rule-table rule (all eight tokens, escaped, longest first, before the generic name rule), no-default-spelling rule; abstract execution of the string forms under renamed identifiers; equality-only rule for token comparisons",
         "printers use environment tokens, lexer table, no default spelling in logic",
         "conflicts between an arbitrary spelling and the fixed rules",
     ),
@@ -105,12 +105,12 @@ CLAIMS = {
         "argparse/file-system behaviour, byte-exact output",
     ),
     "C19": (
-        "alias/taint analysis of the projection helpers, kind guard, loop-nesting rule, unconditional-store and non-empty-array rules",
+        "alias/taint analysis of the projection helpers, kind guard, loop-nesting rule, unconditional-store and non-empty-array rules; abstract execution of the selectors (location parts); who-may-write rule for the projection",
         "document not written through, non-containers produce nothing, flat projection order, selected values always stored, only non-empty integer-keyed levels become arrays",
         "structure of relative and root projections as a whole (rank compaction, no extra leaves)",
     ),
     "C20": (
-        "static part typing at match-construction sites, pass-through rules for pointer construction and patch builders, addressing rule in test/replace/remove",
+        "static part typing at match-construction sites, pass-through rules for pointer construction and patch builders, addressing rule in test/replace/remove; abstract execution of the selectors on covering small documents (typed location parts)",
         "parts typed str/int as selected, pointer from parts without re-parsing, builder pass-through, exact-key-first addressing",
         "document equality after the edit",
     ),
